@@ -157,6 +157,8 @@ def check(db, rep):
     from rules import C09
     C09.priority_rule(db, r6)
     _maxpart_definedness(db, rep)
+    r9 = rep.rule('r9', 'MAXPART-EVALUATED: OpMaxPart::GetAllCstMaxPart with CheckCst, interpreted from the source on every schema of up to four constituents (each a base notion or a definition over any acyclic choice of the others, listed in any order) and every selection, returns the least set that holds the selection and every constituent with a non-empty definition whose inputs are all inside - in list order, and nothing else', 1)
+    _maxpart_evaluated(db, r9, rep.tier == 'thorough')
     r8 = rep.rule('r8', 'RENUMBER-FAITHFUL: the renumbering that ends an extraction keeps the referent of every mention and never gives a dangling mention a meaning (ResetAliases interpreted on schemas with gaps)', 1)
     renumber_evaluated(db, r8)
 
@@ -206,6 +208,94 @@ def _maxpart_definedness(db, rep):
 
 
 # ---------------------------------------------------------------------------------------------- r8: renumbering never gives a dangling mention a meaning
+def _maxpart_evaluated(db, rule, thorough):
+    import itertools
+    from engine.evalmini import Interp, Obj, OutOfFragment, NOT_HANDLED
+    f = db.fn(OPS + 'OpMaxPart::GetAllCstMaxPart', required=False)
+    if f is None:
+        rule.broken('anchor vanished: OpMaxPart::GetAllCstMaxPart')
+        return
+    S_ = 'ccl::semantic::'
+    bad, cases = None, 0
+    N = 4
+
+    def schemas():
+        ids = list(range(1, N + 1))
+        for n in range(1, N + 1):
+            use = ids[:n]
+            # inputs[i]: None = no definition; otherwise a set of other constituents, acyclic w.r.t. some order of the ids
+            for perm in (itertools.permutations(use) if thorough or n <= 3 else [tuple(use), tuple(reversed(use))]):
+                rank = {u: k for k, u in enumerate(perm)}
+                opts = []
+                for u in use:
+                    lower = [v for v in use if rank[v] < rank[u]]
+                    subs = [None] + [frozenset(c) for r in range(len(lower) + 1) for c in itertools.combinations(lower, r)]
+                    opts.append(subs)
+                for choice in itertools.product(*opts):
+                    yield use, dict(zip(use, choice))
+    seen = set()
+    try:
+        for use, inputs in schemas():
+            key = (tuple(use), tuple(sorted((k, None if v is None else tuple(sorted(v))) for k, v in inputs.items())))
+            if key in seen:
+                continue
+            seen.add(key)
+            outs = {u: {v for v in use if inputs[v] and u in inputs[v]} for u in use}
+            for r in range(1, len(use) + 1):
+                for sel in itertools.combinations(use, r):
+                    want = set(sel)
+                    grew = True
+                    while grew:
+                        grew = False
+                        for u in use:
+                            if u not in want and inputs[u] is not None and inputs[u] <= want:
+                                want.add(u)
+                                grew = True
+                    want = [u for u in use if u in want]
+
+                    def on_call(it, fn, n, env):
+                        cs = n.get('cs') or ''
+                        last = cs.split('::')[-1]
+                        if last == 'List' and cs.startswith(S_):
+                            return lst
+                        if last in ('RSLang', 'Graph', 'Core') and cs.startswith(S_):
+                            return Obj(__cls__='facade')
+                        if last == 'GetRS' and cs.startswith(S_):
+                            a = it.eval(fn, fn.stmts[n['args'][0]], env)
+                            return Obj(definition=bytearray(b'' if inputs[a] is None else b'def'))
+                        if cs.startswith('ccl::graph::CGraph::') and n.get('args'):
+                            a = it.eval(fn, fn.stmts[n['args'][0]], env)
+                            if last == 'InputsFor':
+                                return sorted(inputs[a] or ())
+                            if last in ('ExpandOutputs', 'ExpandInputs'):
+                                rel = outs if last == 'ExpandOutputs' else {u: set(inputs[u] or ()) for u in use}
+                                res, todo = set(a), list(a)
+                                while todo:
+                                    x = todo.pop()
+                                    for y in rel.get(x, ()):
+                                        if y not in res:
+                                            res.add(y)
+                                            todo.append(y)
+                                return res
+                        return NOT_HANDLED
+                    lst = Obj(__cls__=S_ + 'CstList', order=list(use), types=('pyfn', lambda uid: 0))
+                    this = Obj(__cls__=OPS + 'OpMaxPart', schema=Obj(__cls__=S_ + 'RSForm'), arguments=set(sel))
+                    it_ = Interp(db, on_call=on_call)
+                    it_.on_range = lambda interp, v: list(v['order']) if isinstance(v, Obj) and v.get('__cls__') == S_ + 'CstList' else v
+                    got = it_.call(f, [], this)
+                    cases += 1
+                    if list(got) != want and bad is None:
+                        show = ', '.join('#%d%s' % (u, '' if inputs[u] is None else ':=f(%s)' % ','.join('#%d' % v for v in sorted(inputs[u]))) for u in use)
+                        bad = 'schema [%s], selection %s: the maximal part is %s, the operation selects %s' % (show, list(sel), want, list(got))
+    except OutOfFragment as e:
+        rule.broken('GetAllCstMaxPart outside the evaluable fragment: %s' % e)
+        return
+    if bad:
+        rule.violation('GetAllCstMaxPart', '%s:%d' % (f.file, f.line), bad)
+    else:
+        rule.ok('GetAllCstMaxPart', '%d (schema, selection) cases over %d schemas agree with the least fixpoint in list order' % (cases, len(seen)), '%s:%d' % (f.file, f.line))
+
+
 def renumber_evaluated(db, rule):
     """RSCore::ResetAliases (the renumbering both extraction operations end with) interpreted on small schemas whose definitions are
     sequences of mentioned names, some of which resolve to no constituent (left behind by an erasure). Supplied: the name registry
